@@ -21,7 +21,7 @@ def sh(cmd, cwd=None, timeout=3000):
 
 
 def main():
-    dirs = sys.argv[1:] or sorted(os.path.join(ROOT, "seeded", d) for d in os.listdir(os.path.join(ROOT, "seeded")))
+    dirs = [os.path.abspath(a) for a in sys.argv[1:]] or sorted(os.path.join(ROOT, "seeded", d) for d in os.listdir(os.path.join(ROOT, "seeded")))
     rc, out = sh(["git", "status", "--porcelain", "--untracked-files=no"], cwd=REPO)
     if out.strip():
         print("refusing: /repo has uncommitted changes to tracked files")
@@ -47,7 +47,12 @@ def main():
                 missed += 1
         finally:
             sh(["git", "checkout", "--", "."], cwd=REPO)
-    # evidence files were rewritten by the runs above with violations in them: refresh is the caller's job
+    # evidence files were rewritten by the runs above with violations in them: refresh on the clean tree
+    for prop in sorted({json.load(open(os.path.join(d, "meta.json")))["property"] for d in dirs}):
+        rc, out = sh([os.path.join(ROOT, "check"), prop, "--tier", "quick"], cwd=ROOT)
+        print(f"clean tree {prop}: rc={rc} {out.strip().splitlines()[-1][:160]}")
+        if rc != 0:
+            missed += 1
     return 1 if missed else 0
 
 
